@@ -542,6 +542,14 @@ func c21Exec(c *Case) {
 			return
 		}
 		for _, w := range env.rt.wire {
+			if w.overCap {
+				c.Oracle("oversize-accepted", fmt.Sprintf("%s succeeded although a response exceeded a client size cap or could not be decoded (fault %q)", op, w.fault))
+				return
+			}
+			if w.bad {
+				c.Oracle("malformed-body-accepted", fmt.Sprintf("%s succeeded although the Arrow library cannot read the response body to its end (fault %q)", op, w.fault))
+				return
+			}
 			if cls := mustFail(op, w, declOK); cls != "" {
 				c.Oracle(cls, fmt.Sprintf("%s succeeded although the response to its request had fault %q", op, w.fault))
 				return
@@ -557,6 +565,7 @@ func c21Exec(c *Case) {
 				switch {
 				case f == "ok", f == "clen:unknown", f == "clen:eq", f == "noeos", f == "drift:same", f == "addlog", f == "addlog:end":
 				case f == "st:201", f == "st:204", f == "st:299":
+				case f == "pad:e:0", f == "pad:e:-8", f == "pad:d:0", f == "pad:d:-8":
 				case f == "enc:gzip", f == "enc:zstd", f == "enc:GZIP", f == "enc:sp-gzip", f == "enc:gzip+identity", f == "enc:gzip+zstd",
 					f == "enc:identity", f == "enc:Identity", f == "enc:xgzip", f == "enc:xzstd", f == "enc:id-xbr", f == "enc:blank-xgzip":
 				default:
@@ -583,7 +592,13 @@ func c21Exec(c *Case) {
 				want[k] = v
 			}
 		}
-		return env.mdWords(want) == env.mdWords(b.Metadata)
+		got := map[string]string{}
+		for k, v := range b.Metadata {
+			if k != "pad" { // added by the pad:* faults to reach an exact body size
+				got[k] = v
+			}
+		}
+		return env.mdWords(want) == env.mdWords(got)
 	}
 	typedOracle := func(op string, raisedFrom int, err error, declOK bool) {
 		if len(env.raised) <= raisedFrom || !passThrough() || !declOK {
@@ -693,7 +708,7 @@ func c21Exec(c *Case) {
 			declOK := kv["decl"] == "ok" && (!hdr || kv["hdecl"] == "ok")
 			failOracles(map[bool]string{true: "open-x", false: "open-p"}[exchange], err != nil, declOK)
 			typedOracle("open", raisedFrom, err, declOK)
-			if err == nil && !declOK && (kv["decl"] != "ok" || hdr) {
+			if err == nil && !declOK && passThrough() {
 				c.Oracle("schema-drift-accepted", fmt.Sprintf("open accepted a stream although the declared schema variant is %s/%s", kv["decl"], kv["hdecl"]))
 			}
 			for _, w := range env.rt.wire {
@@ -798,6 +813,9 @@ func c21Exec(c *Case) {
 				if err == nil && sent == 0 {
 					c.Oracle("exchange-without-request", "Exchange returned a batch without sending a request")
 				}
+				if err != nil && passThrough() && so.exchange && sent > 0 && len(env.emitted) == emittedFrom+1 && len(env.raised) == raisedFrom {
+					c.Oracle("valid-response-rejected", fmt.Sprintf("the server answered the exchange turn with one batch and a cursor, within all limits (fault %q), but Exchange failed: %s", kv["f"], res))
+				}
 				if err == nil && passThrough() && so.exchange {
 					served := env.emitted[emittedFrom:]
 					if len(served) != 1 || !sameEmit(served[0], b) {
@@ -878,7 +896,7 @@ func c21Exec(c *Case) {
 			c.Out(fmt.Sprintf("unary %s%s", expID, absAll()), res+" "+sentObs()+" "+stateObs())
 			failOracles("unary", err != nil, kv["decl"] == "ok")
 			typedOracle("unary", raisedFrom, err, kv["decl"] == "ok" || kv["decl"] == "nil")
-			if err == nil && kv["decl"] != "ok" && kv["decl"] != "nil" {
+			if err == nil && kv["decl"] != "ok" && kv["decl"] != "nil" && passThrough() {
 				c.Oracle("schema-drift-accepted", "unary call accepted a result although the declared schema variant is "+kv["decl"])
 			}
 			if err == nil && passThrough() {
